@@ -13,6 +13,9 @@ package main
 // a begin/end protocol (B <i> / R <i> <line>); the parent turns a dead child into
 // `c11 crash <kind> <case>` (or `c11 oom …` when the Go runtime died allocating a wire-declared
 // size under the child's address-space limit).
+// A multi response that carries a server-class exception (region/client.go serverErrorIn): the calls
+// get their results and then the connection is failed; c11ServerExcCases (c11gen.go) lists such
+// responses explicitly for multis over one, two and three regions.
 // Line formats: lean/GohbaseVerif/Drive/C11.lean.
 
 import (
@@ -46,7 +49,7 @@ func init() { props["C11"] = runC11 }
 
 type c11MC struct {
 	kind    byte // 'g' Get, 'a' Append
-	reg     int  // 0 | 1
+	reg     int  // 0 | 1 | 2 (c11RegInfos)
 	dropped bool // own context cancelled before the flush: multi.toProto drops the call
 }
 
@@ -148,7 +151,7 @@ func (f *c11Frame) clone() *c11Frame {
 
 var c11Table = []byte("t")
 
-func c11Row(reg, i int) []byte { return []byte(fmt.Sprintf("%c-row%d", "am"[reg%2], i)) }
+func c11Row(reg, i int) []byte { return []byte(fmt.Sprintf("%c-row%d", "amt"[reg%3], i)) }
 
 func c11Cellblock(n int) [][]byte {
 	var out [][]byte
@@ -528,7 +531,8 @@ type c11Run struct {
 var c11RegInfos = func() []hrpc.RegionInfo {
 	return []hrpc.RegionInfo{
 		region.NewInfo(1, nil, []byte("t"), []byte("t,,1.aaaaaaaaaaaaaaaaaaaaaaaaaaaaaaaa."), nil, []byte("m")),
-		region.NewInfo(2, nil, []byte("t"), []byte("t,m,2.bbbbbbbbbbbbbbbbbbbbbbbbbbbbbbbb."), []byte("m"), nil),
+		region.NewInfo(2, nil, []byte("t"), []byte("t,m,2.bbbbbbbbbbbbbbbbbbbbbbbbbbbbbbbb."), []byte("m"), []byte("t")),
+		region.NewInfo(3, nil, []byte("t"), []byte("t,t,3.cccccccccccccccccccccccccccccccc."), []byte("t"), nil),
 	}
 }
 
@@ -902,7 +906,9 @@ func c11RunWire(c *c11Case) (string, bool) {
 	var r *c11Run
 	for try := 0; ; try++ {
 		r = c11Setup(c.kind, c.q, c.calls)
-		if r.broken != "" || r.canonical() || try > 40 {
+		// (two regions: the canonical order comes up every other time; three regions: one order in
+		// six or eight, so the limit is generous)
+		if r.broken != "" || r.canonical() || try > 400 {
 			break
 		}
 		go r.rc.Close()
